@@ -868,8 +868,14 @@ func boundsPredicate(k *kind, mn, mx parquet.Value, has bool, vals []parquet.Val
 func boundsCheck(c *core.Ctx, cs *boundsCase) bool {
 	k := kindByName[cs.Kind]
 	vals := make([]parquet.Value, len(cs.Values))
+	parsed := map[string]parquet.Value{} // long pages repeat a few values
 	for i, t := range cs.Values {
-		vals[i] = k.val(t)
+		v, have := parsed[t]
+		if !have {
+			v = k.val(t)
+			parsed[t] = v
+		}
+		vals[i] = v
 	}
 	mn, mx, has, err := pageBounds(k, cs.Dict, vals)
 	if err != "" {
@@ -1052,6 +1058,79 @@ func largeBounds(c *core.Ctx) {
 				c.Case("large/bounds/"+k.Name, fmt.Sprintf("%d/%s", n, where), true)
 			}
 		}
+	}
+}
+
+// positionSweep: pages of more than 64 values, the only smallest and the only
+// largest value at EVERY position. The page code that is not a kernel reads the
+// values of a page in batches (64 values: decimalPage.Bounds, the generic
+// readers), the kernels advance by 8..64 values and finish with a scalar tail;
+// the random pages hold fewer than 24 values and the byte sweep puts its
+// extremes at a third and two thirds of at most 70. A page of n values (n one
+// above a multiple of the batch, and a length that is none) holds two middle
+// values of the domain and, for every p, the smallest value of the domain at
+// position p and the largest at position (p + n/2) mod n: every position,
+// the first and the last of every batch included, holds the minimum of one page
+// and the maximum of another. Plain and dictionary indexed, every kind.
+func positionSweep(c *core.Ctx) {
+	lengths := []int{65, 129, 200}
+	if !c.Quick() {
+		lengths = []int{65, 66, 96, 127, 128, 129, 130, 191, 192, 193, 200, 257}
+	}
+	failures := 0
+	for _, k := range kinds {
+		if len(k.Domain) < 4 {
+			continue
+		}
+		lo, hi := k.tok(k.Domain[0]), k.tok(k.Domain[len(k.Domain)-1])
+		midA, midB := k.tok(k.Domain[len(k.Domain)/2]), k.tok(k.Domain[len(k.Domain)/2-1])
+		for _, dict := range []bool{false, true} {
+			if dict && !canDict(k) {
+				continue
+			}
+			for _, n := range lengths {
+				for p := 0; p < n && failures < 3; p++ {
+					// the model is asked about one page in 32 (the long lists cost the extracted
+					// model more than the page costs the library); the predicates see every page
+					cs := &boundsCase{Kind: k.Name, Dict: dict, Values: make([]string, n), noModel: p%32 != 0}
+					for i := range cs.Values {
+						cs.Values[i] = midA
+						if i%2 == 1 {
+							cs.Values[i] = midB
+						}
+					}
+					cs.Values[p], cs.Values[(p+n/2)%n] = lo, hi
+					c.Case(fmt.Sprintf("sweep/positions/%s/dict=%v", k.Name, dict), fmt.Sprintf("%d/%d", n, p), true)
+					if !c.Probe(func() { boundsCheck(c, cs) }) {
+						continue
+					}
+					// shrink: values off the end, then off the start (the positions of the extremes move with it)
+					failures++
+					cur := *cs
+					for len(cur.Values) > 1 {
+						t := cur
+						t.Values = cur.Values[:len(cur.Values)-1]
+						if !c.Probe(func() { boundsCheck(c, &t) }) {
+							break
+						}
+						cur = t
+					}
+					for len(cur.Values) > 1 {
+						t := cur
+						t.Values = cur.Values[1:]
+						if !c.Probe(func() { boundsCheck(c, &t) }) {
+							break
+						}
+						cur = t
+					}
+					cur.Values = append([]string(nil), cur.Values...)
+					boundsCheck(c, &cur)
+				}
+			}
+		}
+	}
+	if failures >= 3 {
+		c.Note("position sweep of the page bounds stopped after three failing pages")
 	}
 }
 
@@ -2286,7 +2365,7 @@ func historySweep(c *core.Ctx) {
 // ---------------------------------------------------------------- run
 
 func runC05(c *core.Ctx) {
-	c.Res.Rule = "(a) ColumnIndexer of every physical/logical type fed generated page lists (ordered, reversed, constant and random bounds from a per-type domain with extremes, -0, +-Inf, NaN payloads, long 0xFF prefixes; null pages at every position; size limits -1..21), on new indexers and on indexers that indexed 1-2 earlier lists and were Reset (random histories plus a sweep of every kind over histories shorter, equal and longer than the list; the column indexes handed out along the history are kept, as the writer keeps those of finished row groups until Close, and must still read as they did once the indexer has gone on), ascending and descending lists of every kind whose length is around the multiples of the strides of the vectorised order kernels (56, 112, 240 pages for every kind; 55..57, 111..113, 239..241 for the six kinds that have their own kernel, 447..449 / 479..481 for one kernel of each stride; all of these for every kind in the thorough tier; new and reset indexers), plus every list of <= 4 pages over a 3-value domain for int32 / byte arrays and every byte string over {00,01,fe,ff} up to length 5 with limits 1..4; Type.Compare on all domain pairs; Bounds of in-memory pages, plain and dictionary indexed: random pages, byte-position sweeps, pages above 1 MiB, and every ordered pair of every domain (NaNs and both zeros included; for the kinds whose order has ties also the pair spread over a longer page), each followed by Search of every value of the page in the one-page index made of the page's own bounds. (b) files with generated schemas (1-4 columns, required / optional / repeated, plain / dictionary, data page v1 / v2, tiny page buffers, every ColumnIndexSizeLimit 1..20, with and without page statistics, sorting declared or not; row groups cut by MaxRowsPerRowGroup and by Flush; writers new or reused through Writer.Reset after a complete or an abandoned file; a sweep gives every kind, plain and dictionary, each of these histories), re-written through WriteRowGroup with identical settings. (b') the rows sorted in 1-4 parquet.Buffers that declare 0-3 sorting columns (every combination of descending / nulls first) and written through Writer.WriteRowGroup by a writer without (or, sometimes, with) a sorting configuration of its own, on every way in: the Buffers (column-wise re-encode), an application-defined RowGroup around them (row path), row groups of a source file written with the same settings (verbatim copy), with the other data page version (column-wise re-encode), behind an application-defined RowGroup, larger than MaxRowsPerRowGroup (cut on the way), and one MultiRowGroup over them (segments); the source file and the file written are checked like every other file, the sorting columns recorded for every row group must be the declaration (none or the declaration where row groups are cut or packed on the way) and must be true of the rows read back (null placement included). (b'+) the same ways in with a conversion on the way: every source row group behind parquet.ConvertRowGroup to a schema made of some of the columns (1-3 sorting columns over up to 4 columns whose values repeat; the target lacks the first, the second, the third sorting column, the first two, a column that is no sorting column, or nothing; random subsets in the random cases): the converted row group may declare only the sorting columns that precede the first one its schema lacks, what it declares must be true of the rows it yields, and the file written from it is checked like the others against the rows of the kept columns. (b'') for every file of at least 2 row groups the column index of every column chunk of parquet.MultiRowGroup over the row groups in file order, reversed, and in a generated order (consecutive or random row groups, repetitions, an inner MultiRowGroup): page count, null counts, null pages and bounds against the values read back from the pages, IsAscending / IsDescending true of all pairs of non-null pages, Search of every value, and IsAscending / IsDescending against the model of isOrdered fed with what the chunks' own indexes say; a sweep gives every kind (required / optional / repeated, plain / dictionary) files whose row groups are ascending, descending, constant, random or null-only runs whose ranges are disjoint, touch, overlap partially or are nested. Every page header, chunk statistic, column index entry, histogram and boundary order of every row group is checked directly against the values read back and against the model. A case is one indexer call sequence, one page, or one column chunk; non-trivial = at least 2 pages / values; distinct by the canonical text of the case."
+	c.Res.Rule = "(a) ColumnIndexer of every physical/logical type fed generated page lists (ordered, reversed, constant and random bounds from a per-type domain with extremes, -0, +-Inf, NaN payloads, long 0xFF prefixes; null pages at every position; size limits -1..21), on new indexers and on indexers that indexed 1-2 earlier lists and were Reset (random histories plus a sweep of every kind over histories shorter, equal and longer than the list; the column indexes handed out along the history are kept, as the writer keeps those of finished row groups until Close, and must still read as they did once the indexer has gone on), ascending and descending lists of every kind whose length is around the multiples of the strides of the vectorised order kernels (56, 112, 240 pages for every kind; 55..57, 111..113, 239..241 for the six kinds that have their own kernel, 447..449 / 479..481 for one kernel of each stride; all of these for every kind in the thorough tier; new and reset indexers), plus every list of <= 4 pages over a 3-value domain for int32 / byte arrays and every byte string over {00,01,fe,ff} up to length 5 with limits 1..4; Type.Compare on all domain pairs; Bounds of in-memory pages, plain and dictionary indexed: random pages, byte-position sweeps, position sweeps (every kind, pages of 65, 129 and 200 values — twelve lengths up to 257 in the thorough tier — holding the only smallest and the only largest value of the page at every position in turn: the first and last value of every batch of 64 the generic page code reads, every lane and tail position of the kernels), pages above 1 MiB, and every ordered pair of every domain (NaNs and both zeros included; for the kinds whose order has ties also the pair spread over a longer page), each followed by Search of every value of the page in the one-page index made of the page's own bounds. (b) files with generated schemas (1-4 columns, required / optional / repeated, plain / dictionary, data page v1 / v2, tiny page buffers, every ColumnIndexSizeLimit 1..20, with and without page statistics, sorting declared or not; row groups cut by MaxRowsPerRowGroup and by Flush; writers new or reused through Writer.Reset after a complete or an abandoned file; a sweep gives every kind, plain and dictionary, each of these histories), re-written through WriteRowGroup with identical settings. (b') the rows sorted in 1-4 parquet.Buffers that declare 0-3 sorting columns (every combination of descending / nulls first) and written through Writer.WriteRowGroup by a writer without (or, sometimes, with) a sorting configuration of its own, on every way in: the Buffers (column-wise re-encode), an application-defined RowGroup around them (row path), row groups of a source file written with the same settings (verbatim copy), with the other data page version (column-wise re-encode), behind an application-defined RowGroup, larger than MaxRowsPerRowGroup (cut on the way), and one MultiRowGroup over them (segments); the source file and the file written are checked like every other file, the sorting columns recorded for every row group must be the declaration (none or the declaration where row groups are cut or packed on the way) and must be true of the rows read back (null placement included). (b'+) the same ways in with a conversion on the way: every source row group behind parquet.ConvertRowGroup to a schema made of some of the columns (1-3 sorting columns over up to 4 columns whose values repeat; the target lacks the first, the second, the third sorting column, the first two, a column that is no sorting column, or nothing; random subsets in the random cases): the converted row group may declare only the sorting columns that precede the first one its schema lacks, what it declares must be true of the rows it yields, and the file written from it is checked like the others against the rows of the kept columns. (b'') for every file of at least 2 row groups the column index of every column chunk of parquet.MultiRowGroup over the row groups in file order, reversed, and in a generated order (consecutive or random row groups, repetitions, an inner MultiRowGroup): page count, null counts, null pages and bounds against the values read back from the pages, IsAscending / IsDescending true of all pairs of non-null pages, Search of every value, and IsAscending / IsDescending against the model of isOrdered fed with what the chunks' own indexes say; a sweep gives every kind (required / optional / repeated, plain / dictionary) files whose row groups are ascending, descending, constant, random or null-only runs whose ranges are disjoint, touch, overlap partially or are nested. Every page header, chunk statistic, column index entry, histogram and boundary order of every row group is checked directly against the values read back and against the model. A case is one indexer call sequence, one page, or one column chunk; non-trivial = at least 2 pages / values; distinct by the canonical text of the case."
 
 	var vmIdx, vmTrunc []string
 	addVmIdx := func(cs *idxCase) {
@@ -2456,6 +2535,7 @@ func runC05(c *core.Ctx) {
 	// bytes of the values; a wrong permutation entry only shows when every
 	// other byte ties)
 	byteSweep(c)
+	positionSweep(c)
 	pairSweep(c)
 	largeBounds(c)
 	// page and dictionary bounds
